@@ -41,6 +41,8 @@ Proof.
     + intros i cl' A. eapply client_ok_mono; eauto. apply (inv_client g IC _ _ A).
     + intros k c0 cur0 E. discriminate.
     + intros i cl' t' [].
+    + intros i cl' [].
+    + intros k c0 cur9 cl' E. discriminate.
   - apply (LF g g' t th F Hth Ht []).
     + exact IF.
     + exact L.
@@ -170,6 +172,8 @@ Proof.
       inversion A; subst cl'. eapply client_ok_retarget; eauto. apply (inv_client g IC _ _ E).
     + intros k c0 cur0 E. discriminate.
     + intros i cl' t' [].
+    + intros i cl' [].
+    + intros k c0 cur9 cl' E. discriminate.
   - apply (LF g g' t th F Hth Ht [p; cur]).
     + exact IF.
     + exact L.
@@ -338,6 +342,8 @@ Proof.
   - intros i cl' A. rewrite Hgc in A. eapply client_ok_mono; eauto. apply (inv_client g (invC g I) _ _ A).
   - intros k c0 cur E. exfalso. exact (H2 _ _ _ E).
   - intros i cl' t' [].
+  - intros i cl' [].
+  - intros k c0 cur9 cl' E. exfalso. exact (H2 _ _ _ E).
 Qed.
 
 Lemma neqb_false : forall a b : nat, a <> b -> Nat.eqb a b = false.
@@ -468,6 +474,8 @@ Proof.
            inversion A; subst cl'. eapply client_ok_retarget; eauto. apply (inv_client g (invC g I) _ _ E).
         -- intros k c0 cur E. discriminate.
         -- intros i cl' t' [].
+        -- intros i cl' [].
+        -- intros k c0 cur9 cl' E. discriminate.
       * apply (LF g g' t th F Hth Ht [p]).
         -- apply (invF g I).
         -- exact L.
